@@ -62,7 +62,10 @@ def check_pair_match(ctx, fn, opname, vm, kind):
                     continue
                 bn = bins[0]
                 lhs, rhs = bn["l"], bn["r"]
-                if bn["op"] != opname:
+                mirror = {"Lt": "Gt", "Gt": "Lt", "Le": "Ge", "Ge": "Le"}
+                if bn["op"] == mirror.get(opname) and any(H.uses_local(lhs, n) for n in rb) and any(H.uses_local(rhs, n) for n in lb):
+                    lhs, rhs = rhs, lhs  # `b > a` is `a < b`: mirrored operator with swapped operands is the row's own comparison
+                elif bn["op"] != opname:
                     ctx.violation("operator", key, "arm (%s,%s) of row %s evaluates `%s`" % (a, b, opname, H.show(bn)), site=bn["sp"])
                     continue
             else:
